@@ -39,7 +39,7 @@ def run(ctx):
     # --- SIR hierarchy with rho on arbitrary degree distributions
     for k in range(ctx.scale(12, 80)):
         seed = ctx.rng.randrange(10 ** 6)
-        kind = ctx.rng.choice(["gnp", "ba", "regular", "star+cycle"])
+        kind = ["gnp", "ba", "regular", "star+cycle", "gnp+isolated", "ba+isolated"][k % 6]
         n = ctx.rng.randint(20, 60)
         if kind == "gnp":
             G = nx.gnp_random_graph(n, 5.0 / n, seed=seed)
@@ -47,9 +47,15 @@ def run(ctx):
             G = nx.barabasi_albert_graph(n, 2, seed=seed)
         elif kind == "regular":
             G = nx.random_regular_graph(3, n + n % 2, seed=seed)
-        else:
+        elif kind == "star+cycle":
             G = nx.disjoint_union(nx.star_graph(6), nx.cycle_graph(n))
-        if min(dict(G.degree()).values()) == 0 and ctx.rng.random() < 0.5:
+        elif kind == "gnp+isolated":
+            G = nx.gnp_random_graph(n, 5.0 / n, seed=seed)
+            G.add_nodes_from(range(n, n + ctx.rng.randint(2, 10)))          # isolated nodes: a degree-0 class
+        else:
+            G = nx.barabasi_albert_graph(n, 2, seed=seed)
+            G.add_nodes_from(range(n, n + ctx.rng.randint(2, 10)))
+        if min(dict(G.degree()).values()) == 0 and "isolated" not in kind:
             G.remove_nodes_from([u for u, d in G.degree() if d == 0])
         N = G.order()
         rho = ctx.rng.choice([0.05, 0.1, 0.25])
